@@ -140,8 +140,17 @@ Definition ctor_write_ok (w : field_write) : bool :=
   | _, _ => false
   end.
 
-Definition field_write_ok (al : allow_lists) (w : field_write) : bool :=
-  ctor_write_ok w || fw_under_lock w || fw_in_once w ||
+(* under the owner's mutex: the write goes through the RECEIVER of the locked method and the field belongs to the type
+   that owns the mutex.  A write to some other object made inside a locked method (`flow.hits++` on a cached flow
+   inside flowAssets.Get) is ordered against other holders of that mutex only, not against the sessions that read the
+   object without it: MWriteDef inside MAcq..MRel against another thread's MRead (c09_def_write_refuted) *)
+Definition under_lock_ok (ms : list mutex_method) (w : field_write) : bool :=
+  fw_under_lock w &&
+  match fw_root w with RtRecv => true | _ => false end &&
+  existsb (fun m => String.eqb (fw_pkg w) (mm_pkg m) && String.eqb (fw_type w) (append (mm_pkg m) (append "." (mm_type m)))) ms.
+
+Definition field_write_ok (al : allow_lists) (ms : list mutex_method) (w : field_write) : bool :=
+  ctor_write_ok w || under_lock_ok ms w || fw_in_once w ||
   mem_str (fw_type w) (al_private_types al) ||
   mem_pair (fw_pkg w) (fw_func w) (al_field_writes al).
 
@@ -157,7 +166,7 @@ Definition discipline_of (al : allow_lists) (ms : list mutex_method) (gws : list
      d_shared_lazy := map (fun v => append (sv_pkg v) (append "." (sv_var v))) (filter (fun v => negb (shared_var_ok al v)) svs)
                       ++ map (fun w => append (gw_pkg w) (append "." (gw_func w))) (filter (fun w => negb (global_write_ok al w)) gws);
      d_def_writes := map (fun w => append (fw_pkg w) (append "." (append (fw_func w) (append ":" (append (fw_type w) (append "." (fw_field w)))))))
-                         (filter (fun w => negb (field_write_ok al w)) fws) |}.
+                         (filter (fun w => negb (field_write_ok al ms w)) fws) |}.
 
 Definition discipline_ok (d : discipline) : bool :=
   d_locked d && match d_shared_lazy d with [] => true | _ => false end
